@@ -496,6 +496,14 @@ def differential(prop_id, cases, monitor=None, finding_class=None, nontrivial=No
         if a is None or b is None or a == "BADCASE" or b == "BADCASE" or a.startswith("NO-OUTPUT") or b.startswith("NO-OUTPUT") or b.startswith("MODEL-") or b.startswith("STUCK"):
             raise RuntimeError("machinery error on case %r: impl=%r model=%r" % (l, a, b))
     cz = canon if canon is not None else (lambda l, o: o)
+    if retry is not None:
+        # engines that talk to real sockets: an answer that differs from the model's is taken once more, with few cases in
+        # flight (a port handed to another process between two steps, a time limit under load); what persists is judged
+        again = [i for i in range(len(lines)) if cz(lines[i], impl[i]) != model[i]]
+        if again:
+            env2 = dict(impl_env or ENV, VERIF_NET_WATCHDOG="45")
+            for i, o in zip(again, run_lines(IMPL_BIN[0], [lines[i] for i in again], shards=1 if len(again) <= 12 else 2, env=env2)):
+                impl[i] = o
     disagree = [i for i in range(len(lines)) if cz(lines[i], impl[i]) != model[i]]
     xcheck = vm_crosscheck(lines, model) if TIER[0] == "thorough" else None
     mon = {}
